@@ -66,6 +66,8 @@ class System:
             return 0
         elif n == "popvia":
             r = self.h.pop(a["i"])
+        elif n == "popkeyvia":
+            r = self.h.pop(KEY[a["k"]])
         elif n == "appendvia":
             r = self.h.append(OBJ[a["x"]])
         elif n == "popindex":
@@ -113,7 +115,7 @@ class System:
                 return 0
         else:
             raise ValueError(n)
-        if n in ("popindex", "poplast", "popkey", "popkeydefault", "popvia"):
+        if n in ("popindex", "poplast", "popkey", "popkeydefault", "popvia", "popkeyvia"):
             return ROBJ.get(r, ("?", repr(r)))       # (the object handed back may be None: it is one of the objects)
         return 0 if r is None else ("?", repr(r))
 
@@ -127,6 +129,7 @@ class System:
                 "items": [ROBJ.get(v, repr(v)) for k, v in p.objects.items()],
                 "range": [ROBJ.get(v, repr(v)) for v in p.get_range().values()],
                 "rangekeys": list(p.get_range().keys()),
+                "h": [ROBJ.get(x, repr(x)) for x in list.__iter__(self.h)] if getattr(self, "h", None) is not None else [0],
                 "value": [ROBJ.get(x) for x in val] if self.multi else ROBJ.get(val, 0)}
 
     def check(self, st, ret, got):
@@ -143,6 +146,8 @@ class System:
             return ("names", "after %s names is %r, spec expects %r" % (name, got["names"], exp["names"]))
         if exp["names"] and got["rangekeys"] != [KEY[k] for k, _ in exp["names"]]:
             return ("names", "after %s get_range() keys %r, spec expects %r" % (name, got["rangekeys"], exp["names"]))
+        if got["h"] != exp["h"]:
+            return ("handle", "after %s the handle taken earlier holds %r, spec expects %r" % (name, got["h"], exp["h"]))
         if got["value"] != exp["value"]:
             return ("value", "after %s value is %r, spec expects %r" % (name, got["value"], exp["value"]))
         n = len(self.notes) - self.before
